@@ -349,7 +349,8 @@ func (l *lruCache[K]) Snapshot() []*discovery.Resource {
 	iKeys := l.store.Keys()
 	res := make([]*discovery.Resource, len(iKeys))
 	for i, ik := range iKeys {
-		v, ok := l.store.Get(ik)
+		// Peek, not Get: Get reorders the LRU's recency list, which is a write and must not happen under RLock.
+		v, ok := l.store.Peek(ik)
 		if !ok {
 			continue
 		}
